@@ -84,11 +84,12 @@ type CancelCli struct {
 // S-CANCEL (DESIGN §3 C06).
 func init() {
 	Register(&Scenario{
-		Name:     "cancel",
-		LazyToo:  true,
-		DescToo:  true,
-		Property: "C06",
-		Cfg:      vsched.Config{Horizon: 10 * time.Second},
+		Name:        "cancel",
+		LazyDescToo: true,
+		LazyToo:     true,
+		DescToo:     true,
+		Property:    "C06",
+		Cfg:         vsched.Config{Horizon: 10 * time.Second},
 		Params: func(tier string) []Param {
 			var ps []Param
 			add := func(set string, ws, bound int) {
